@@ -21,7 +21,7 @@ Print Assumptions C01_newest_wins_node.
 
 (* the same for every edge, over whole histories: a read of identity (t,k) of the edge (par, id) is
    the fold of [newer] over the accepted edge points of that identity (node type points are not
-   stored); requests are as they arrive over the bus (non-empty parent token, reserved id "none") *)
+   stored); requests are as they arrive over the bus (non-empty parent token) *)
 Theorem C01_newest_wins_edge :
   forall ops st par id t k, wf st -> Inv st -> edges_ok st -> Forall op_ok ops ->
     lookup (edge_rows (run st ops) par id) t k =
